@@ -78,7 +78,7 @@ func c05Lengths() []namedScen {
 	}
 	for _, n := range []int{63, 64, 65} {
 		out = append(out, namedScen{fmt.Sprintf("len-quick-reply-%d", n), &gen.Scenario{
-			Assets: d.BaseAssets(d.Flow("A", "messaging", d.Node("a1", []any{d.Action("m", "send_msg", gen.M{"text": "pick", "quick_replies": []string{gen.LongString(n, 63), "ok"}})}, nil, d.Exit("a1x", "")))),
+			Assets:  d.BaseAssets(d.Flow("A", "messaging", d.Node("a1", []any{d.Action("m", "send_msg", gen.M{"text": "pick", "quick_replies": []string{gen.LongString(n, 63), "ok"}})}, nil, d.Exit("a1x", "")))),
 			Trigger: d.Manual("A", nil),
 		}})
 	}
@@ -302,7 +302,7 @@ func (p *c05) Run(c fw.Case) fw.Result {
 		}
 		if s.Contact() != nil && rec.ContactBefore != nil && string(rec.ContactBefore) != string(rec.ContactAfter) {
 			var cb, ca struct {
-				Name   string                       `json:"name"`
+				Name   string                    `json:"name"`
 				Fields map[string]map[string]any `json:"fields"`
 			}
 			json.Unmarshal(rec.ContactBefore, &cb)
